@@ -33,7 +33,7 @@ from .catalog_data import TABLES
 FEEDS = ('alc1', 'alc2', 'mono1', 'mono2')
 TABLES4 = ('A', 'B', 'C', 'D')
 MONO_KIND = {'A': 'inline', 'B': 'csv', 'C': 'parquet', 'D': 'parquet'}
-KNOWN = ('not', 'abs', 'factors-asym', 'mixed-table-ref', 'bool-leaf-pred', 'cross-join', 'star-over-ref-set')
+KNOWN = ('not', 'abs', 'factors-asym', 'mixed-table-ref', 'bool-leaf-pred', 'cross-join')
 
 
 def family(feed: str) -> str:
